@@ -48,6 +48,11 @@ def alias_cases():
     add("abs-symlink-to-source", base + [F("f"), L("lf", "@ROOT@/f")], ["f", "lf"], ["f"])
     add("hardlink-of-source", base + [F("f"), H("hf", "f")], ["f", "hf"], ["f"])
     add("T-same-dir-respelled", base, ["-T", "d", "./d"], ["d/f", "d/g"], True)
+    # a directory copied "into" itself: the destination is the source directory under another spelling (maps to d/d)
+    add("dir-into-itself-dot-slash", base, ["d", "./d"], ["d/f", "d/g"], True)
+    add("dir-into-itself-abs", base, ["d", "@ROOT@/d"], ["d/f", "d/g"], True)
+    add("dir-into-itself-dotdot", base, ["./d", "other/../d"], ["d/f", "d/g"], True)
+    add("dir-into-itself-symlink", base + [L("ld", "d")], ["d", "ld"], ["d/f", "d/g"], True)
     add("T-symlink-to-dir", base + [L("ld", "d")], ["-T", "d", "ld"], ["d/f", "d/g"], True)
     add("dest-holds-hardlinks", base + [D("dst"), D("dst/d"), H("dst/d/f", "d/f")], ["d", "dst"], ["d/f", "d/g"], True)
     add("dest-holds-symlinks", base + [D("dst"), D("dst/d"), L("dst/d/f", "../../d/f")], ["d", "dst"], ["d/f", "d/g"], True)
